@@ -10,7 +10,13 @@ Tie:
       `uftrace replay`; the text of every call is compared with the model's readArgs/decodeVals/render.
   monitors (Python, independent of the Lean model): captured values = passed values, slice bounds,
       NULL distinguishable, framing of the whole record stream, replay text = text of the passed values.
-Findings: F6 (NULL stored as "NULL"), S1 (stores before the size check: slice overrun).
+  spec sources (harness/c09_specsrc.py): one function getting its specs from -T, -A, -R, repeated options,
+      patterns overlapping plain names, duplicate and unordered indices: the writer's list (libmcount) against the
+      reader's list (info file + setup_fstack_args) in H1 / H3 / H5, model Uft.Argbuf.writerList / readerList.
+Findings: F6 (NULL stored as "NULL"), S1 (stores before the size check: slice overrun),
+C09-TRIGRET / C09-TRIGAUTO / C09-OLDFMT (the info file does not describe the layout libmcount used),
+C09-DUMPF80 (raw dump of a 10-byte long double through an 8-byte temporary).
+  H3 also runs `uftrace dump` on every synthesized directory and compares each number / string with the recorded bytes.
 """
 import glob
 import json
@@ -19,6 +25,9 @@ import re
 import struct
 import subprocess
 from concurrent.futures import ThreadPoolExecutor
+
+import importlib.util
+import sys
 
 from lib import common as C, h1, datadir
 
@@ -30,6 +39,17 @@ for _i in range(8):
 NSTACKW = 110
 M64 = (1 << 64) - 1
 FILL = 0xa5
+
+
+def _load_specsrc():
+    sp = importlib.util.spec_from_file_location("c09_specsrc", os.path.join(C.VERIF, "harness", "c09_specsrc.py"))
+    m = importlib.util.module_from_spec(sp)
+    sp.loader.exec_module(m)
+    m.bind(sys.modules[__name__])
+    return m
+
+
+SS = None        # harness/c09_specsrc.py, loaded by run()
 
 
 # ---------------------------------------------------------------------------------------------
@@ -1036,7 +1056,8 @@ def cleanup_shm(r):
 
 
 def run_proc(ctx, exe, lay, p, idx):
-    script = []
+    script = list(getattr(p, "pre_ops", []))
+    npre = len(script)
     t = 1000
     prev = [0] * (NSTACKW + 1)
     for c in p.calls:
@@ -1065,6 +1086,7 @@ def run_proc(ctx, exe, lay, p, idx):
                                                              out[0][:80] if out else "")
         return p
     p.failed = None
+    p.pre_out = out[1:1 + npre]
     for c in p.calls:
         ls = out[1 + c.first_op: 1 + c.first_op + len(c.lines)]
         # the call's own E is the last E of its block, its X the first X
@@ -1196,7 +1218,7 @@ def py_decode_stream(p, lay, data):
 # ---------------------------------------------------------------------------------------------
 # H3
 # ---------------------------------------------------------------------------------------------
-def info_with_specs(dd, argspec, retspec):
+def info_with_specs(dd, argspec, retspec, ptype="regex", argauto=""):
     b = bytearray(dd.info_bytes())
     mask = struct.unpack_from("<Q", b, 24)[0] | (1 << 10)
     struct.pack_into("<Q", b, 24, mask)
@@ -1214,7 +1236,9 @@ def info_with_specs(dd, argspec, retspec):
                 out.append(b"argspec:" + argspec.encode())
             if retspec:
                 out.append(b"retspec:" + retspec.encode())
-            out += [b"argauto:", b"retauto:", b"enumauto:"]
+            out += [b"argauto:" + argauto.encode(), b"retauto:", b"enumauto:"]
+    if ptype != "regex":
+        out = [b"pattern_type:" + ptype.encode() if l.startswith(b"pattern_type:") else l for l in out]
     return head + b"\n".join(out)
 
 
@@ -1230,6 +1254,8 @@ def run(ctx):
     ctx.snapshot()
     thorough = ctx.tier == "thorough"
     kf = {f["id"]: f for f in C.known_findings("C09")}
+    global SS
+    SS = _load_specsrc()
 
     exe, log = h1.build(ctx, "normal", driver="h1_c09_driver.c", out="h1c09")
     if not exe:
@@ -1254,6 +1280,15 @@ def run(ctx):
         nrand = 10 if not thorough else 150
         for i in range(nrand):
             procs.append(gen_random(rng, i, 60 if not thorough else 120))
+        # spec sources: corpus first, then generated option sets, then one probe per open-finding shape
+        src_procs = [SS.directed_src_proc(rng, n, cs) for n, cs in SS.directed_src_cases()]
+        for i in range(6 if not thorough else 60):
+            src_procs.append(SS.gen_src_proc(rng, i, 40 if not thorough else 80, "glob" if i % 5 == 4 else "regex"))
+        src_procs += SS.probe_src_procs(rng)
+        for p in src_procs:
+            st = p.case.strings()
+            p.pre_ops = ["XTA %s %s %s" % (SS.hexs(st["T"]), SS.hexs(st["A"]), SS.hexs(st["R"]))]
+        procs += src_procs
         with ThreadPoolExecutor(12) as ex2:
             list(ex2.map(lambda ip: run_proc(ctx, exe, lay, ip[1], ip[0]), enumerate(procs)))
         made_ok, make_log = fut_make.result()
@@ -1399,6 +1434,7 @@ def run(ctx):
     # ---- H3: model payloads read by the real replay ----------------------------------------------
     h3 = run_h3(ctx, procs, lay, best, made_ok, make_log, thorough)
     h5 = run_h5(ctx, made_ok)
+    src = run_src(ctx, [p for p in procs if isinstance(p, SS.SrcProc)], lay, best, made_ok, make_log, thorough)
 
     # ---- verdict ----------------------------------------------------------------------------------
     def describe(p, i):
@@ -1412,6 +1448,15 @@ def run(ctx):
                 "impl_entry": c.impl_e[:600], "impl_exit": c.impl_x[:600]}
 
     reported = 0
+    # spec sources: violations that are not one of the characterised findings first
+    src_v = sorted(src["violations"], key=lambda v: bool(v[2]))
+    seen_groups = {}
+    for v in src_v:
+        g = "info" if "-info-" in v[0] else v[0].split("-")[0]
+        seen_groups[g] = seen_groups.get(g, 0) + 1
+        if seen_groups[g] <= (1 if g == "info" else 2):
+            C.violation(ctx, v[0], v[1], no_failing_input=v[2])
+    src["violation_groups"] = seen_groups
     f6_present = best[0] == 0 and bool(matching)
     s1_present = best[1] == 0 and bool(matching)
 
@@ -1514,13 +1559,52 @@ def run(ctx):
                                 "native_stdout": h5.get("native_stdout"), "traced_stdout": h5.get("traced_stdout"),
                                 "theorem": "c09_parse_pack"})
 
+    # C09-DUMPF80: the raw dump of a long double
+    f80 = list(h3["dump_f80"]) + list((src["h3"] or {}).get("dump_f80") or [])
+    e80 = h5.get("dumpf80") or {}
+    if f80 or e80.get("present"):
+        probe = (0x3fffa000000000000000).to_bytes(12, "little").hex()
+        mo = run_model(["DUMPRAW 0 10 " + probe, "DUMPRAW 1 10 " + probe])
+        what = ("C09-DUMPF80 `uftrace dump` copies a 10-byte long double into an 8-byte temporary (cmds/dump.c pr_args / "
+                "pr_retval: memcpy(&val, ptr, spec->size) with long long val): 2 bytes are written past the variable and the "
+                "value is printed without sign and exponent. Shape: an argument or return value spec of size 10 (fparg/80, "
+                "retval/f80) read by `uftrace dump`. %d values in the synthesized directories (first: %s)%s; model: "
+                "as it is %s, repaired %s (witness c09_prefix_dump_f80_witness)"
+                % (h3["dump_f80_count"] + (src["h3"] or {}).get("dump_f80_count", 0), "; ".join(f80[:2]) or "-",
+                   "; end to end: ld(1.25L, 4) = 5.0L is dumped as %s, passed %s" % (e80.get("shown"), e80.get("passed"))
+                   if e80.get("present") else "", mo[0], mo[1]))
+        if "C09-DUMPF80" in kf:
+            C.known(ctx, kf["C09-DUMPF80"], what)
+        else:
+            C.violation(ctx, "C09-DUMPF80", {"kind": "property-violated-on-implementation", "finding": "C09-DUMPF80",
+                                             "what": what, "synthesized": f80, "end_to_end": e80,
+                                             "options": H5_OPTS, "program": "harness/c09_h5.c",
+                                             "proposed_fix": "/verif/proposed_fixes/C09-DUMPF80.diff",
+                                             "theorem": "c09_dump_raw_exact", "status": "not listed in known_findings.json"})
+    # the characterised spec-source findings last (KNOWN-FINDING once they are listed as open)
+    for fid in sorted(src["findings"]):
+        fo = src["findings"][fid]
+        what = "%s %s. Shape: %s. Probe `%s`: %s%s (implementation matches the pre-fix model, witness %s)" % (
+            fid, SS.FINDINGS[fid], SS.SHAPES[fid], " ".join(fo["options"]), "; ".join(fo["h3"][:2]),
+            "".join("; end to end (`%s`): %s" % (" ".join(fo.get("h5_options", [])), e) for e in fo["h5"][:2]),
+            {"C09-TRIGRET": "c09_prefix_trigger_retval_witness", "C09-TRIGAUTO": "c09_prefix_trigger_auto_witness",
+             "C09-OLDFMT": "c09_prefix_oldfmt_witness"}[fid])
+        if fid in kf:
+            C.known(ctx, kf[fid], what)
+        else:
+            C.violation(ctx, fid, {"kind": "property-violated-on-implementation", "finding": fid, "what": what,
+                                   "shape": SS.SHAPES[fid], "options": fo["options"], "replay_of_probe": fo["h3"],
+                                   "end_to_end": fo["h5"], "end_to_end_options": fo.get("h5_options"),
+                                   "proposed_fix": "/verif/proposed_fixes/%s.diff" % fid,
+                                   "theorem": "c09_spec_lists_agree", "status": "not listed in known_findings.json"})
     samples = []
     for p in procs[:2] + procs[-1:]:
         c = p.calls[len(p.calls) // 2]
         samples.append({"proc": p.name, "specs": [s.text() for s in p.fns.get(c.fn, [])], "tag": c.tag,
                         "impl_exit": c.impl_x[:200], "records": c.impl_recs[:160]})
     ctx.coverage.update({
-        "evaluations": 2 * ncalls + h3["calls"] + (len(H5_EXPECT) if h5["ran"] else 0),
+        "evaluations": 2 * ncalls + h3["calls"] + (len(H5_EXPECT) if h5["ran"] else 0) + (src["h3"] or {}).get("calls", 0)
+        + (src["h5"] or {}).get("values", 0),
         "distinct_nontrivial": len(distinct),
         "rule": "H1: per process a table of up to 31 functions with spec lists; per call a full machine state "
                 "(6 integer registers, 8 xmm, 110 stack words, return value, xmm0/st0 at exit, string pointers: "
@@ -1530,7 +1614,16 @@ def run(ctx):
                 "string length 0..110 as argument and return value at both alignments mod 8; pre-fills 880..1020 step 4 "
                 "x string lengths through the slice boundary; 126..255 integer arguments; NULL/\"NULL\"/unreadable grid; "
                 "then random spec lists x random boundary values. distinct = distinct (spec list, slice after entry, "
-                "slice after exit) triples. H3: model payloads -> data directory -> uftrace replay text.",
+                "slice after exit) triples. H3: model payloads -> data directory -> uftrace replay text. "
+                "Spec sources: option sets over -T / -A / -R (2-5 items per target function from random sources, each item a "
+                "plain name or a regex / glob pattern that may cover other functions, 1-3 specs per item, 45% of them a "
+                "re-specification of an argument the function already has, retval actions in -T, actions the option ignores) "
+                "-> H1 (libmcount's payload = model pack with the model's writer list; extract_trigger_args = model info "
+                "strings), H3 (info file with the real strings, payloads laid out by the writer's list, real replay), H5 "
+                "(generated program logging its own arguments x directed + random option sets + --auto-args; replay, dump, "
+                "dump --chrome, python and lua script compared value by value with the program's log). Functions whose "
+                "lists the model says differ in the tree as it is (open-finding shapes) are left out of H3 and probed by "
+                "directed cases.",
         "h1_processes": len(procs), "h1_calls": ncalls, "string_lengths_covered": len(n_str_lens),
         "model_variants_matching": [list(x) for x in matching],
         "model_code_disagreements": {str(list(fx)): len(diffs[fx]) for fx in variants},
@@ -1540,6 +1633,7 @@ def run(ctx):
         "calls_out_of_bounds": len(mon["bounds"]),
         "h3": {k: v for k, v in h3.items() if k != "violations"},
         "h5": h5,
+        "spec_sources": {k: v for k, v in src.items() if k != "violations"},
         "exhaustive": False,
         "samples": samples,
     })
@@ -1551,12 +1645,19 @@ def run(ctx):
         "region [start, end)) for the string pools, the pages around a PROT_NONE page and around an unmapped hole; the "
         "heap/stack rounding heuristics of the /proc/self/maps cache are not probed",
         "H3 compares the default `uftrace replay` text (no colour, no JSON); floats are rendered by Python's %f",
+        "spec sources: pattern matching (regexec / fnmatch / strcmp) is evaluated by Python's re / fnmatch / == on the check "
+        "side and enters the model as the set of matched functions; the auto-args table / DWARF is an opaque function of the "
+        "model (the same on both sides); H5 programs are built with -O0 (narrow integer parameters are only compared on "
+        "their own width); module qualifiers (@libname) and kernel functions are not generated",
     ]
     return C.finish(ctx)
 
 
-def run_h3(ctx, procs, lay, fx, made_ok, make_log, thorough):
-    res = {"calls": 0, "text_mismatch_model": 0, "text_mismatch_expected": 0, "violations": []}
+def run_h3(ctx, procs, lay, fx, made_ok, make_log, thorough, chosen=None, prefix="h3"):
+    """chosen: explicit list of processes (spec-source family); a process may carry info_specs() (the strings of its
+    info file), h3_skip (functions left out) and probe (a finding id: mismatches are evidence, not violations)"""
+    res = {"calls": 0, "text_mismatch_model": 0, "text_mismatch_expected": 0, "violations": [], "probes": {}, "skipped_calls": 0,
+           "dump_values": 0, "dump_mismatch": 0, "dump_f80": [], "dump_f80_count": 0}
     if not made_ok:
         res["violations"].append(("h3-build", {"kind": "harness-build-failed", "log": make_log[-2000:]}, True))
         return res
@@ -1566,10 +1667,17 @@ def run_h3(ctx, procs, lay, fx, made_ok, make_log, thorough):
                                                "log": make_log[-2000:]}, True))
         return res
     # choose processes: string sweep, null cases, randoms
-    chosen = [p for p in procs if p.name in ("string-lengths", "null-and-unreadable") or p.name.startswith("random-")]
-    if not thorough:
-        chosen = chosen[:6]
+    if chosen is None:
+        chosen = [p for p in procs if p.name in ("string-lengths", "null-and-unreadable") or p.name.startswith("random-")]
+        if not thorough:
+            chosen = chosen[:6]
     tid = 4242
+
+    def probe_note(p, text):
+        pr = res["probes"].setdefault(p.probe, {"present": False, "evidence": []})
+        pr["present"] = True
+        if len(pr["evidence"]) < 3:
+            pr["evidence"].append(text)
 
     def one(ip):
         i, p = ip
@@ -1579,6 +1687,9 @@ def run_h3(ctx, procs, lay, fx, made_ok, make_log, thorough):
         for ci, c in enumerate(p.calls):
             specs = p.fns.get(c.fn, [])
             if any(s.model()[1] == "e" for s in specs):
+                continue
+            if c.fn in getattr(p, "h3_skip", ()):
+                res["skipped_calls"] += 1
                 continue
             has_a = any(not s.is_ret() for s in specs)
             has_r = any(s.is_ret() for s in specs)
@@ -1601,14 +1712,22 @@ def run_h3(ctx, procs, lay, fx, made_ok, make_log, thorough):
         if not recs:
             return p, [], None, ""
         dd = datadir.DataDir(syms, [datadir.Task(tid, recs)])
-        d = os.path.join(ctx.scratch, "h3-%d" % i)
+        d = os.path.join(ctx.scratch, "%s-%d" % (prefix, i))
         e = p.env()
-        dd.write(d, overrides={"info": info_with_specs(dd, e.get("UFTRACE_ARGUMENT"), e.get("UFTRACE_RETVAL"))})
+        if hasattr(p, "info_specs"):
+            ia, ir, pt, aa = p.info_specs()
+            dd.write(d, overrides={"info": info_with_specs(dd, ia, ir, pt, aa)})
+        else:
+            dd.write(d, overrides={"info": info_with_specs(dd, e.get("UFTRACE_ARGUMENT"), e.get("UFTRACE_RETVAL"))})
         env = dict(os.environ)
         env.pop("UFTRACE_DIR", None)
         try:
             r = subprocess.run([uft, "replay", "-d", d, "--no-pager", "--color=no"], stdout=subprocess.PIPE,
                                stderr=subprocess.PIPE, timeout=60, env=env)
+            if not getattr(p, "probe", None):
+                r2 = subprocess.run([uft, "dump", "-d", d, "--no-pager"], stdout=subprocess.PIPE,
+                                    stderr=subprocess.PIPE, timeout=60, env=env)
+                p.h3_dump = (r2.returncode, r2.stdout, r2.stderr)
             return p, expect, r.returncode, (r.stdout, r.stderr)
         except subprocess.TimeoutExpired:
             return p, expect, -999, (b"", b"TIMEOUT")
@@ -1618,6 +1737,11 @@ def run_h3(ctx, procs, lay, fx, made_ok, make_log, thorough):
     parse_lines, parse_idx = [], []
     for p, expect, rc, out in outs:
         if not expect:
+            continue
+        if getattr(p, "probe", None):
+            res["probes"].setdefault(p.probe, {"present": False, "evidence": []})
+        if rc != 0 and getattr(p, "probe", None):
+            probe_note(p, "uftrace replay fails (rc=%s): %s" % (rc, out[1][-200:].decode("utf-8", "replace")))
             continue
         if rc != 0:
             res["violations"].append(("h3-replay-" + p.name, {
@@ -1631,8 +1755,13 @@ def run_h3(ctx, procs, lay, fx, made_ok, make_log, thorough):
                 lines.append(m.group(2))
         p.h3_lines = lines
         p.h3_expect = expect
+        if len(lines) != len(expect) and getattr(p, "probe", None):
+            probe_note(p, "replay shows %d calls for %d recorded calls: %s" % (
+                len(lines), len(expect), " / ".join(l.decode("utf-8", "replace")[:80] for l in lines[:4])))
+            continue
         if len(lines) != len(expect):
             res["violations"].append(("h3-lines-" + p.name, {
+                **getattr(p, "h3_extra", {}),
                 "kind": "property-violated-on-implementation",
                 "what": "replay printed %d calls for %d recorded calls (framing lost)" % (len(lines), len(expect)),
                 "env": p.env(), "stdout_tail": out[0][-800:].decode("utf-8", "replace"),
@@ -1667,10 +1796,16 @@ def run_h3(ctx, procs, lay, fx, made_ok, make_log, thorough):
 
             def line_of(a, r):
                 return b"f%d(" % c.fn + a + b")" + (b" = " + r if r is not None else b"") + b";"
+            if getattr(p, "probe", None):
+                if got != line_of(et, rt):
+                    probe_note(p, "replay shows %s, the call was %s" % (got.decode("utf-8", "replace")[:120],
+                                                                         line_of(et, rt).decode("utf-8", "replace")[:120]))
+                continue
             if got != line_of(mt_a, mt_r) or not framing_ok:
                 res["text_mismatch_model"] += 1
                 if res["text_mismatch_model"] <= 2:
                     res["violations"].append(("h3-model-%s-%d" % (p.name, ci), {
+                        **getattr(p, "h3_extra", {}),
                         "kind": "model-code-disagreement", "what": "replay text differs from the model's rendering",
                         "specs": [s.text() for s in specs], "replay": got.decode("utf-8", "replace")[:500],
                         "model": line_of(mt_a, mt_r).decode("utf-8", "replace")[:500],
@@ -1684,11 +1819,179 @@ def run_h3(ctx, procs, lay, fx, made_ok, make_log, thorough):
                 res["text_mismatch_expected"] += 1
                 if res["text_mismatch_expected"] <= 2:
                     res["violations"].append(("h3-text-%s-%d" % (p.name, ci), {
+                        **getattr(p, "h3_extra", {}),
                         "kind": "property-violated-on-implementation",
                         "what": "replay does not show the values the function received",
                         "specs": [s.text() for s in specs], "replay": got.decode("utf-8", "replace")[:500],
                         "expected": line_of(et, rt).decode("utf-8", "replace")[:500], "tag": c.tag,
                         "theorem": "c09_parse_pack"}, False))
+    # ---- the raw dump of the same directories: every number / string it prints against the recorded bytes
+    for p, expect, rc, out in outs:
+        if not expect or rc != 0 or getattr(p, "probe", None) or not hasattr(p, "h3_dump"):
+            continue
+        drc, dout, derr = p.h3_dump
+        if drc != 0:
+            res["violations"].append(("h3-dump-" + p.name, {
+                **getattr(p, "h3_extra", {}), "kind": "implementation-failed", "what": "uftrace dump failed on a directory "
+                "that replay reads", "rc": drc, "stderr": derr[-500:].decode("utf-8", "replace"), "env": p.env()}, True))
+            continue
+        calls = SS.parse_dump_calls(dout, {"f%d" % k for k in range(NF)})
+        if len(calls) != len(expect):
+            res["dump_mismatch"] += 1
+            if res["dump_mismatch"] <= 2:
+                res["violations"].append(("h3-dump-lines-" + p.name, {
+                    **getattr(p, "h3_extra", {}), "kind": "property-violated-on-implementation", "env": p.env(),
+                    "what": "dump shows %d calls for %d recorded calls" % (len(calls), len(expect)),
+                    "theorem": "c09_framing_preserved"}, False))
+            continue
+        for (ci, c, pa, pr, et, rt), (nm, da, dr) in zip(expect, calls):
+            specs = p.fns.get(c.fn, [])
+            for ret, pay, got in ((False, pa, da), (True, pr, dr)):
+                if pay is None:
+                    continue
+                vals, _ = py_decode(specs, ret, pay)
+                sel_specs = [sp for sp in specs if sp.is_ret() == ret]
+                if vals is None or len(got) != len(vals):
+                    res["dump_mismatch"] += 1
+                    if res["dump_mismatch"] <= 2:
+                        res["violations"].append(("h3-dump-count-%s-%d" % (p.name, ci), {
+                            **getattr(p, "h3_extra", {}), "kind": "property-violated-on-implementation",
+                            "what": "dump shows %d %s for %d recorded" % (len(got), "return values" if ret else "arguments",
+                                                                            len(vals or [])),
+                            "specs": [sp.text() for sp in specs], "dump": repr(got)[:400], "theorem": "c09_parse_pack"}, False))
+                    continue
+                for k2, (sp, v, g) in enumerate(zip(sel_specs, vals, got)):
+                    idx, fmt, size, ty, loc, sregs = sp.model()
+                    if v[0] == "struct" or g[0] == "other":
+                        continue
+                    if v[0] == "str" and b"\n" in v[1].split(b"\0")[0]:
+                        continue        # printed over several lines: not parsed back here
+                    res["dump_values"] += 1
+                    if v[0] == "str":
+                        exp = b"NULL" if v[1] == b"\xff\xff\xff\xff" else v[1].split(b"\0")[0]
+                        ok = g[0] == "str" and g[1] == exp
+                    else:
+                        ok = g[0] == "int" and g[2] == v[2] and (g[1] == 8 * size or fmt == "p")
+                    if ok:
+                        continue
+                    if v[0] == "int" and size > 8 and g[0] == "int" and g[2] == v[2] & M64:
+                        res["dump_f80_count"] += 1
+                        if len(res["dump_f80"]) < 3:
+                            res["dump_f80"].append("%s: %s recorded as %#x, dump shows %#x" % (
+                                sp.text(), "return value" if ret else "argument %d" % (k2 + 1), v[2], g[2]))
+                        continue
+                    res["dump_mismatch"] += 1
+                    if res["dump_mismatch"] <= 2:
+                        res["violations"].append(("h3-dump-%s-%d" % (p.name, ci), {
+                            **getattr(p, "h3_extra", {}), "kind": "property-violated-on-implementation",
+                            "what": "dump: %s %d: shown %r, recorded %r" % ("return value" if ret else "argument", k2 + 1, g, v),
+                            "specs": [s2.text() for s2 in specs], "payload": pay.hex()[:400], "tag": c.tag,
+                            "theorem": "c09_dump_raw_exact / c09_parse_pack"}, False))
+    return res
+
+
+def run_src(ctx, sprocs, lay, fx, made_ok, make_log, thorough):
+    """spec-source family after the H1 runs: the info transformation against the model, the readers' list through
+    the real replay (H3), generated programs end to end (H5); classification of the open-finding shapes"""
+    res = {"procs": len(sprocs), "functions_with_specs": sum(len(p.fns) for p in sprocs), "merge_diff": 0,
+           "info_mismatch": 0, "info_variant": None, "xfix": None, "violations": [], "findings": {}, "h3_probe": None,
+           "h3": None, "h5": None, "skipped_functions": {}}
+    if not sprocs:
+        return res
+
+    def tok(l):
+        return [x.token() for x in l]
+    # 1. the model's writer list against the documented merge semantics
+    for p in sprocs:
+        for f, (w, r, la, lr) in sorted(p.lists.items()):
+            m = SS.py_merge(p.case, f)
+            if m is not None and tok(m) != tok(w):
+                res["merge_diff"] += 1
+                if res["merge_diff"] <= 2:
+                    res["violations"].append(("specsrc-merge-%s-f%d" % (p.name, f), dict(
+                        p.case.describe(), kind="model-code-disagreement", function="f%d" % f,
+                        what="the model's writer list differs from the documented merge semantics (py_merge)",
+                        model=[x.text() for x in w], documented=[x.text() for x in m],
+                        theorem="c09_spec_lists_agree (model of add_arg_spec / update_filter)"), True))
+    # 2. the strings the real extract_trigger_args() returned against the model's info transformation
+    common = None
+    for p in sprocs:
+        kvs = kv(p.pre_out[0]) if getattr(p, "pre_out", None) else {}
+
+        def dec(h):
+            return None if h in (None, "-") else bytes.fromhex(h).decode("utf-8", "replace").rstrip("\0")
+        p.info_a, p.info_r = dec(kvs.get("argspec")), dec(kvs.get("retspec"))
+        p.variants = SS.info_variant(p.case, p.info_a, p.info_r)
+        p.h3_extra = dict(p.case.describe(), info_argspec=p.info_a, info_retspec=p.info_r)
+        if not p.variants:
+            res["info_mismatch"] += 1
+            if res["info_mismatch"] <= 2:
+                _, line = SS.model_lists(p.case, (0, 0, 0))
+                ma, mr, _ = SS.parse_model_info(p.case, line)
+                res["violations"].append(("specsrc-info-" + p.name, dict(
+                    p.case.describe(), kind="model-code-disagreement",
+                    what="extract_trigger_args() does not return the strings the model predicts (any repair variant)",
+                    impl_argspec=p.info_a, impl_retspec=p.info_r,
+                    model_argspec=";".join(n + ("@" + ",".join(SS.RawSpec(t).text() for t in ts) if ts else "") for n, ts in ma),
+                    model_retspec=";".join(n + ("@" + ",".join(SS.RawSpec(t).text() for t in ts) if ts else "") for n, ts in mr),
+                    theorem="correspondence of extract_trigger_args with Uft.Argbuf.infoArgs / infoRets "
+                            "(hypothesis of c09_spec_lists_agree)"), True))
+        else:
+            common = set(p.variants) if common is None else common & set(p.variants)
+    variant = next((v for v in SS.VARIANTS if common and v in common), (0, 0))
+    res["info_variant"] = list(variant) if common else None
+    if not made_ok or not os.path.exists(os.path.join(ctx.src, "uftrace")):
+        return res
+    # 3. the probes through the real replay: which finding shapes are really garbled
+    probes = [p for p in sprocs if getattr(p, "probe", None)]
+    h3p = run_h3(ctx, sprocs, lay, fx, made_ok, make_log, thorough, chosen=probes, prefix="h3p")
+    res["h3_probe"] = {k: v for k, v in h3p.items() if k != "violations"}
+    res["violations"] += h3p["violations"]
+    present = {fid for fid, pr in h3p["probes"].items() if pr["present"]}
+    for fid in present:
+        res["findings"][fid] = {"h3": h3p["probes"][fid]["evidence"], "h5": [], "options":
+                                next(p.case.argv() for p in probes if p.probe == fid)}
+    by_info = set()
+    if common:
+        if variant[0] == 0:
+            by_info.add("C09-TRIGRET")
+        if variant[1] == 0:
+            by_info.add("C09-TRIGAUTO")
+        for fid in ("C09-TRIGRET", "C09-TRIGAUTO"):
+            if (fid in present) != (fid in by_info):
+                res["violations"].append(("specsrc-probe-" + fid, {
+                    "kind": "model-code-disagreement", "finding": fid,
+                    "what": "the info strings say the finding is %s, the replay of the probe says it is %s" % (
+                        "present" if fid in by_info else "repaired", "present" if fid in present else "absent"),
+                    "probe": h3p["probes"].get(fid), "info_variant": list(variant)}, True))
+    xf = (variant[0], variant[1], 0 if "C09-OLDFMT" in present else 1)
+    res["xfix"] = list(xf)
+    # 4. every other process: functions whose lists the model (as the tree is) says disagree are left out
+    others = [p for p in sprocs if not getattr(p, "probe", None)]
+    for p in others:
+        lists, _ = SS.model_lists(p.case, xf)
+        p.h3_skip = {f for f, (w, r, la, lr) in lists.items() if not (la and lr)}
+        if p.h3_skip:
+            for fid in (p.case.shapes() or {"?"}):
+                res["skipped_functions"][fid] = res["skipped_functions"].get(fid, 0) + len(p.h3_skip)
+    h3 = run_h3(ctx, sprocs, lay, fx, made_ok, make_log, thorough, chosen=others, prefix="h3s")
+    res["h3"] = {k: v for k, v in h3.items() if k != "violations"}
+    res["violations"] += h3["violations"]
+    # 5. end to end
+    h5 = SS.run_h5(ctx, thorough, present)
+    res["h5"] = {k: v for k, v in h5.items() if k not in ("violations", "info_mismatch")}
+    res["h5"]["info_mismatch"] = len(h5["info_mismatch"])
+    for m in h5["info_mismatch"][:2]:
+        res["violations"].append(("h5src-info-" + m["case"], dict(
+            m, kind="model-code-disagreement", theorem="correspondence of extract_trigger_args / `uftrace info` with "
+            "Uft.Argbuf.infoArgs / infoRets",
+            what="`uftrace info` does not show the argument / return value lines the model predicts"), True))
+    res["violations"] += h5["violations"]
+    for fid, pr in h5["probes"].items():
+        if pr["present"]:
+            f = res["findings"].setdefault(fid, {"h3": [], "h5": [], "options": pr["options"]})
+            f["h5"] = pr["evidence"]
+            f["h5_options"] = pr["options"]
     return res
 
 
@@ -1725,6 +2028,8 @@ def run_h5(ctx, made_ok):
                              stdout=subprocess.PIPE, stderr=subprocess.PIPE, timeout=60, env=env)
         rep = subprocess.run(["timeout", "20", uft, "replay", "-d", d, "--no-pager", "--color=no", "-F", "main"],
                              stdout=subprocess.PIPE, stderr=subprocess.PIPE, timeout=30, env=env)
+        dmp = subprocess.run(["timeout", "20", uft, "dump", "-d", d, "--no-pager"],
+                             stdout=subprocess.PIPE, stderr=subprocess.PIPE, timeout=30, env=env)
     except subprocess.TimeoutExpired:
         res["other"].append("record/replay timed out")
         return res
@@ -1737,6 +2042,17 @@ def run_h5(ctx, made_ok):
         return res
     if rec.stdout != native:
         res["s2"].append("the traced program printed %r, without tracing %r" % (res["traced_stdout"], res["native_stdout"]))
+    # raw dump of the long double argument and return value of ld(1.25L, 4) = 5.0L
+    want80 = [0x3fffa000000000000000, 0x4001a000000000000000]
+    if dmp.returncode != 0:
+        res["other"].append("uftrace dump failed: rc=%d %s" % (dmp.returncode, dmp.stderr[-200:].decode("utf-8", "replace")))
+    else:
+        lds = [c for c in SS.parse_dump_calls(dmp.stdout, {"ld"})]
+        shown = [t[2] for c in lds for t in (c[1][:1] + c[2][:1]) if t[0] == "int" and t[1] == 80]
+        res["dumpf80"] = {"shown": ["%#x" % v for v in shown], "passed": ["%#x" % v for v in want80],
+                          "present": shown != want80}
+        if shown != want80 and shown != [v & M64 for v in want80]:
+            res["other"].append("dump shows the long double values of ld(1.25L, 4) = 5.0L as %s" % res["dumpf80"]["shown"])
     got = []
     for l in rep.stdout.split(b"\n"):
         m = REPLAY_LINE.match(l)
